@@ -480,6 +480,10 @@ func derivesFrom(v ssa.Value, src func(ssa.Value) bool, passThrough ...string) b
 			if a, ok := bind[x]; ok {
 				return walk(a)
 			}
+			// the parameter of a helper extracted since (see resolveLoad): the caller's argument
+			if r := resolveLoad(x); r != ssa.Value(x) {
+				return walk(r)
+			}
 		}
 		return false
 	}
@@ -1104,7 +1108,31 @@ func failCut(ret ssa.Instruction) EdgePred {
 		lv, ok2 := v.(*ssa.UnOp)
 		return ok1 && ok2 && lx.Op == token.MUL && lv.Op == token.MUL && lx.X == lv.X
 	}
-	return edgeNil(same, false)
+	direct := edgeNil(same, false)
+	phi, isPhi := v.(*ssa.Phi)
+	if !isPhi {
+		return direct
+	}
+	// `if err = a(); err == nil { err = b() }; return err`: the returned value is a phi; the edge on which a()'s error
+	// was found non-nil is the edge that delivers that very error to the phi: a failing exit as well
+	return func(b *ssa.BasicBlock, s int) bool {
+		if direct(b, s) {
+			return true
+		}
+		if ifOf(b) == nil || s >= len(b.Succs) || b.Succs[s] != phi.Block() {
+			return false
+		}
+		for i, pb := range phi.Block().Preds {
+			if pb != b || i >= len(phi.Edges) {
+				continue
+			}
+			op := strip(phi.Edges[i])
+			if edgeNil(func(x ssa.Value) bool { return x == op }, false)(b, s) {
+				return true
+			}
+		}
+		return false
+	}
 }
 
 func describeVal(v ssa.Value) string {
@@ -2649,4 +2677,19 @@ func walkTargets(call *ssa.Call) []*ssa.Function {
 		return nil
 	}
 	return out
+}
+
+// isFieldOrGetter: v is a read of the struct field "pkg.Type.Field", directly or through the getter generated for
+// protobuf messages ((*pkg.Type).GetField, which answers the field, or its zero value for a nil message).
+func isFieldOrGetter(key string) func(ssa.Value) bool {
+	i := strings.LastIndex(key, ".")
+	typ, field := key[:i], key[i+1:]
+	getter := "(*" + typ + ").Get" + field
+	direct := isLoadOfField(key)
+	return func(v ssa.Value) bool {
+		if direct(v) {
+			return true
+		}
+		return isResultOfCall(v, 0, getter) != nil
+	}
 }
